@@ -478,3 +478,96 @@ def replay(path):
     for v in viols:
         print('  TLC: event %d fails %s  signature=%s' % (v['l'], v['conjs'], json.dumps(v.get('sig'))))
     return 1
+
+
+# ----------------------------------------------------------------------------- manifest texts
+_LVL = ('TLC explores the complete state space of the bounded Level-A model (every state x operation x argument), '
+        'emits it as a labelled transition system, the harness executes those edges (quick: seeded sample; thorough: all) and random walks on the '
+        'real code for every configuration, and TLC validates every recorded event against the specification with every conjunct. ')
+_NOTE = ('Trusted: TLC + community modules; the harness observer/concretisation tables; bounded universe (6 paths, depth 2, contents <= 2 symbols) with '
+         'name maps (ascii, prefix-sharing, dotted, multi-byte, long) and block sizes up to 65537 as homomorphic concretisations.')
+MANIFEST_TEXT = {
+    'C06': dict(level='TLC checks JoinImpl (the transcription of join_internal) = Resolve (declarative lexical resolution) and the canonical-form, root-clamp, absolute-restart, '
+                      'parent/filename and composition laws for ALL argument strings up to the length bound over {/, ., letter, multi-byte letter} x 4 bases, emits every case, and the harness '
+                      'executes each case (plus seeded random strings up to 64 tokens and join/parent/root chains) on VfsPath and AsyncVfsPath; TLC validates every recorded result against Level A.',
+                note='Trusted: TLC; token concretisation tables (3 variants with 1-4 byte characters). Exhaustive to length 6 (quick) / 8 (model) and 7 (replayed) in thorough.',
+                technique='TLA+ exhaustive enumeration of join arguments (MC_Join) + TLC trace validation (Trace_Join)', ref='DESIGN.md 6 C06'),
+    'C01': dict(level=_LVL + 'Conjuncts class/value/effect: outcome class in the allowed set and the full observation equals the tree Level A prescribes, after every call.',
+                note=_NOTE, technique='TLA+ Level-A model checking + LTS replay + TLC trace validation', ref='DESIGN.md 6 C01'),
+    'C02': dict(level=_LVL + 'MemoryFS and PhysicalFS are both judged by the same deterministic Level A on the same LTS edges, so agreement follows on the specified regime.',
+                note=_NOTE, technique='TLA+ Level-A model checking + LTS replay on mem and phys + TLC trace validation', ref='DESIGN.md 6 C02'),
+    'C03': dict(level=_LVL + 'Conjunct wellformed is evaluated by TLC on the observed record of every event over the unrestricted operation domain.',
+                note=_NOTE, technique='TLA+ invariant WellFormed (model) + WellFormedObs on every trace event', ref='DESIGN.md 6 C03'),
+    'C05': dict(level=_LVL + 'Conjunct observers (ObserversAgree, WalkAgrees) relates the observers to each other on every event without reference to the model state.',
+                note=_NOTE, technique='TLA+ ObserversAgree on every trace event', ref='DESIGN.md 6 C05'),
+    'C07': dict(level=_LVL + 'Altroot configurations execute every call also as the twin call on P/q in a second identical world; TLC checks twin equality, confinement of the recorded inner calls and that the outside snapshot is unchanged. '
+                'Confinement against hostile path expressions: a catalogue of escapes ("..", absolute and doubled-slash segments, encoded dots, ...) plus a seeded sample of the argument strings TLC enumerated for C06 is joined onto the root of altroot filesystems '
+                '(P of depth 1-3 over memory, physical, altroot, overlay) and of a PhysicalFS inside a sandbox with canaries; 16 operations are applied to each result; TLC (Trace_Confine) checks that every inner call stays below P, the outside snapshot '
+                '(std::fs for the sandbox) is unchanged and no read returned canary bytes.',
+                note=_NOTE, technique='TLA+ trace validation with twin execution (TwinEqual, Confined, OutsideUnchanged)', ref='DESIGN.md 6 C07'),
+    'C08': dict(level=_LVL + 'Every overlay layer is wrapped in a recording filesystem; TLC checks on every event that lower layers are unchanged (structure, bytes, times) and that observers issue no mutating call.',
+                note=_NOTE, technique='TLA+ trace validation (LowerUnchanged, ObserversPure) over recorded layer snapshots and call logs', ref='DESIGN.md 6 C08'),
+    'C09': dict(level=_LVL + 'The init event carries the layer snapshots; TLC computes Merge(layers) and judges the overlay by the same Level-A actions from then on.',
+                note=_NOTE, technique='TLA+ Merge(layers) + Level-A trace validation on pre-populated overlays', ref='DESIGN.md 6 C09'),
+    'C10': dict(level=_LVL + 'A dedicated driver removes entries that live in lower layers (file, emptied directory, remove_dir_all of a subtree), performs unrelated operations, '
+                're-creates the path (changing its type) and repeats three cycles on 2-4 layers; because the observation covers the whole universe and records unknown listed names as foreign, '
+                'a resurrected entry, a non-empty re-created directory or a visible marker fails the effect/observers conjuncts.',
+                note=_NOTE + ' Names ending in _wo and .whiteout are never generated (reserved by the overlay, excluded by the property).',
+                technique='TLA+ Level-A trace validation of removal/re-creation cycles over pre-populated lower layers', ref='DESIGN.md 6 C10'),
+    'C14': dict(level='TLC explores every reachable state of the bounded read/write cursor machines (VfsHandles: buffers <= 3 symbols, seeks from Start/Current/End with negative, zero and '
+                'past-the-end offsets, read sizes 0/1/2/5, remove while open) and emits the LTS; the harness walks it coverage-guided (untested edges first) on handles obtained from memory, physical, '
+                'altroot and overlay (incl. copy-up from a lower layer) with block sizes scaling offsets and lengths, ending walks with extreme-offset seeks; TLC validates every return value and '
+                'what a fresh reader sees after every call (Trace_Handles).',
+                note='Trusted: TLC; block concretisation (uniform block size is a homomorphism for read/write/seek). Seeks on append handles are not generated on physical files (O_APPEND, excluded by the property). Short reads are accepted if non-empty and in order.',
+                technique='TLA+ cursor-machine model checking (MC_Handles) + LTS replay on real handles + TLC trace validation', ref='DESIGN.md 6 C14'),
+    'C04': dict(level='Byte fidelity is decided by three TLC-validated sources: (1) the handle LTS walks (write/seek/flush/append/drop scripts; published bytes re-read by a fresh reader after every call, metadata length), '
+                'with block sizes 1..65537 so that abstract lengths <= 4 cover concrete lengths around the 8 KiB copy buffer and above 64 KiB, non-UTF-8 patterns, overlay copy-up from lower layers; '
+                '(2) the tree/overlay walks whose effect conjunct compares the bytes of every file of the universe after create/append/copy/move with rotating read-buffer sizes; (3) DirLenZero in ObsMatches.',
+                note=_NOTE, technique='TLA+ writer machine (VfsHandles) + Level-A content transformers; TLC trace validation of bytes', ref='DESIGN.md 6 C04'),
+    'C11': dict(level=_LVL + 'Composite effects (create_dir_all, remove_dir_all, copy/move of files and directories incl. copy_dir counts) are atomic Level-A operators; '
+                'for transfers ACROSS instances TLC explores all pairs of well-formed trees of a 3-path universe x all transfers (MC_Tree2, 784 states, 51856 edges) and the harness replays a seeded sample '
+                '(thorough: 25%) of those edges for every ordered pair of configurations (memory, physical, altroot, overlay incl. sources served from a lower layer), observing both filesystems completely.',
+                note=_NOTE, technique='TLA+ two-instance transfer model (VfsTree2/MC_Tree2) + LTS replay on ordered pairs of backends + TLC trace validation (Trace_Tree2)', ref='DESIGN.md 6 C11'),
+    'C15': dict(level='(i) The async filesystems (memory, physical, altroot, overlay and stackings) are driven through AsyncVfsPath on a tokio current-thread runtime by the same LTS walks and observed by the same observer as the sync '
+                'side, and TLC judges their traces by the SAME Level A (so outcomes, classes, trees and bytes equal the sync contract); (ii) async read handles and write handles run the handle LTS (Trace_Handles); '
+                '(iii) poll schedules: TLC model-checks WalkDirIterator::poll_next with an adversarial Pending environment (MC_WalkAsync: all trees <= 5 entries, all listing orders, <= 3 pendings: equals the sync walk), and on the code a PendingFS '
+                'wrapper makes read_dir / metadata / the directory stream return Pending per plan while the harness polls walk_dir by hand (every single placement of weight 1-2, sampled pairs, dense plans); TLC (Trace_WalkAsync) checks completeness, '
+                'no duplicates, parents first, termination; (iv) join/parent/filename/extension of AsyncVfsPath are compared in the C06 traces.',
+                note=_NOTE + ' Timestamp setters of AsyncMemoryFS (not implemented by design) and seeks on async write handles (Write only) are outside the property.',
+                technique='TLA+ Level-A trace validation of the async twins + MC_WalkAsync model checking + pending-plan replay (Trace_WalkAsync)', ref='DESIGN.md 6 C15'),
+    'C16': dict(level='A cooperative scheduler drives real threads through the yield points placed (feature verif-hooks) before every lock acquisition of MemoryFS, so a schedule is a sequence of thread choices; '
+                'stateless DFS explores EVERY interleaving of all 2 x 1 programs over {a, a/b, a/c} x 5 initial maps (quick: seeded 60%/15% sample) and preemption-bounded (2; thorough 3) 2x2, 2x3, 3x1 programs, '
+                'also through an altroot. For every program all sequential call orders are executed on the same code; TLC (Trace_Lin) decides for every distinct history whether some sequential order '
+                'explains results and final state, plus well-formedness, no panic, no deadlock. Write handles are two calls (open, close), as the API makes them.',
+                note='Trusted: TLC; the scheduler (one thread runs between yield points; yield points are outside critical sections); result granularity ok/err + returned values (not error kinds).',
+                technique='schedule exploration at lock granularity (hooks) + measured sequential reference + TLC trace validation (Trace_Lin); TLA+ model Conc for the design-level claim', ref='DESIGN.md 6 C16'),
+    'C17': dict(level='Same scheduler: concurrent create_dir_all on all pairs (and seeded triples/quadruples) of 7 targets of depth 1-4 sharing prefixes of every length, on memory, altroot, physical (yield point at PhysicalFS::create_dir), '
+                'overlays over memory/physical, fresh and with a prefix that was removed earlier (whiteout marker present), altroot over overlay; exhaustive on memory/altroot/physical pairs, preemption bound 1 (quick) / 2 (thorough) on overlays. '
+                'TLC checks on every distinct history: all calls ok, every requested path and ancestor is a directory, tree well-formed, no panic/deadlock.',
+                note='Trusted: TLC; the scheduler. PhysicalFS interleavings are explored at create_dir granularity (the OS is not modelled below the syscall boundary).',
+                technique='schedule exploration (hooks) + TLC trace validation (Trace_Lin)', ref='DESIGN.md 6 C17'),
+    'C18': dict(level='EmbeddedFS over a committed fixture folder (nested, dotted, multi-byte, prefix-sharing names a.txt / a.txt.dir, an empty file, non-UTF-8 bytes) is judged by Level A in read-only mode: '
+                'the init event carries the observation of a PhysicalFS on a copy of the same folder as ground truth (conjunct truth: existence, type, length, bytes, listings, walks for every path of a 21-path universe incl. absent siblings, '
+                'prefixes of names and paths below files, and the root); then EVERY mutating operation is applied to EVERY universe path (transfers to 4 destinations, 3 timestamp fields) and TLC checks the class '
+                '(not_supported whenever the path layer pre-checks pass) and that the complete observation is unchanged. TLC also model-checks the read-only contract (MC_ReadOnly: refused, unchanged) on the bounded universe.',
+                note='Trusted: TLC; rust-embed derive on the fixture; the fixture is finite, so the (path x operation) space is enumerated completely.',
+                technique='TLA+ read-only Level A (ReadOnlyOp) + exhaustive (path x operation) trace validation against a PhysicalFS ground truth', ref='DESIGN.md 6 C18'),
+    'C19': dict(level=_LVL + 'Timestamps: the harness records the metadata of the target immediately before and after every call; for every set_*_time event TLC (TimesOK) checks that the field reads back exactly the value set '
+                '(tick table: epoch, 1 ns, pre-epoch, years 2100 and 2400, sub-second parts), that the other settable fields are unchanged, that an unsupported or failing setter changes nothing and reports the pinned class, and that the tree and all bytes are unchanged '
+                '(effect conjunct); appends must preserve the creation time where it is settable. A dedicated driver interleaves setters of all three fields in random orders with writes on files and directories on memory, physical, altroot and overlays (entries in lower layers: copy-up).',
+                note=_NOTE + ' Fields a configuration cannot set (e.g. creation time on physical) are not required to survive an adapter copy-up.',
+                technique='TLA+ TimesOK on pre/post metadata of every setter and append event (trace validation)', ref='DESIGN.md 6 C19'),
+    'C20': dict(level='Fault enumeration judged by TLC: a FaultFS wrapper (public FileSystem trait) makes the k-th call into a base filesystem return an I/O error. For seeded (model state, operation) pairs of the Level-A LTS '
+                '(biased to composites and adapter operations) and for observer operations (exists, is_dir, is_file, metadata, read_dir, walk_dir, read_to_string), the fault-free run is probed for its call count n and the operation is re-run '
+                'on an identically rebuilt world for EVERY k in 1..n, on plain, altroot, overlay (fault in the upper or in a lower layer, 2-3 layers) and nested stackings. TLC (Trace_Tree/TrFault) accepts success only with the complete Level-A effect and value, '
+                'and requires: no panic, namespace still a tree, lower layers unchanged, observers change nothing.',
+                note=_NOTE + ' One fault per operation; the fault is an Err return of a trait method (handles returned by the base filesystem are not faulted).',
+                technique='exhaustive fault-position sweep (FaultFS) + TLA+ Level-A trace validation (TrFault)', ref='DESIGN.md 6 C20'),
+    'C12': dict(level=_LVL + 'Conjunct errpath: every error of every call and observer names a path of the caller namespace related to the call; pinned classes are part of conjunct class.',
+                note=_NOTE, technique='TLA+ ErrPathOK on every failing call/observer of every trace event', ref='DESIGN.md 6 C12'),
+    'C13': dict(level=_LVL + 'Every harness call runs under catch_unwind; panic is an outcome class no trace action accepts, so every trace of every group also decides C13: wrong-type calls on every path, the root as observer target, '
+                'extreme-offset seeks / zero-length reads / drops of detached handles (handle LTS), all join strings (C06 traces), hostile path expressions, EmbeddedFS, and PhysicalFS directories prepared with std::fs '
+                '(non-UTF-8 names, dangling symlinks, symlink loops) through plain, altroot and overlay configurations.',
+                note=_NOTE, technique='panic as outcome class in TLC-validated traces', ref='DESIGN.md 6 C13'),
+}
+NOT_YET = {}
